@@ -68,12 +68,14 @@ package rrc
 //@ ensures counters-kept: forallKey(m.paths, func(k string) bool { return KEPT(k) ==>
 //@    m.paths[k].sentBytes == old(m.paths[k].sentBytes) && m.paths[k].receivedBytes == old(m.paths[k].receivedBytes)
 //@    && m.paths[k].challengePending == old(m.paths[k].challengePending) && m.paths[k].cookie == old(m.paths[k].cookie) })
+//@ ensures deadlines-kept: forallKey(m.paths, func(k string) bool { return KEPT(k) ==> m.paths[k].expiresAt == old(m.paths[k].expiresAt) })
 //@ end
 
 
 //@ func Manager.recordReceived
 //@ watch sameAddress Manager.pathLocked Manager.touchLocked
 //@ requires inv: INV(m)
+//@ ensures counted-path-within-budget: wireBytes > 0 && !SAME() ==> PL() != nil && BUDGET(PL())
 //@ ensures inv: INV(m)
 //@ ensures ignored: wireBytes <= 0 || SAME() ==> !called("Manager.pathLocked") && sameRef(m.paths, old(m.paths))
 //@ ensures counted: wireBytes > 0 && !SAME() ==> called("Manager.pathLocked") && PL() != nil && PL().receivedBytes >= uint64(wireBytes)
@@ -83,7 +85,21 @@ package rrc
 //@    && (old(m.paths[k].receivedBytes) > 18446744073709551615 - uint64(wireBytes) ==> m.paths[k].receivedBytes == 18446744073709551615) })
 //@ ensures sent-unchanged: forallKey(m.paths, func(k string) bool { return KEPT(k) ==> m.paths[k].sentBytes == old(m.paths[k].sentBytes) })
 //@ ensures others-unchanged: forallKey(m.paths, func(k string) bool { return KEPT(k) && m.paths[k] != PL() ==> m.paths[k].receivedBytes == old(m.paths[k].receivedBytes) })
+//@ ensures pending-deadline-not-rearmed: called("Manager.touchLocked") ==> !argAs("Manager.touchLocked", 2, m.paths[""]).challengePending
+//@ ensures pending-deadline-kept: forallKey(m.paths, func(k string) bool { return KEPT(k) && old(m.paths[k].challengePending) ==> m.paths[k].expiresAt == old(m.paths[k].expiresAt) })
+//@ ensures touched-is-the-counted-path: called("Manager.touchLocked") ==> argAs("Manager.touchLocked", 2, m.paths[""]) == PL() && sameRef(argAs("Manager.touchLocked", 1, addr), addr)
 //@ ensures unlocked: !held("Manager.mu")
+//@ end
+
+// touchLocked (re)arms the deadline of one path: expiresAt = now + timeout. It writes only the deadline and the
+// timer of that path (inferred write set); the timer callback is not modelled.
+//@ func Manager.touchLocked
+//@ watch time.Now time.Time.Add
+//@ noinline
+//@ requires args: path != nil
+//@ ensures deadline-from-now: called("time.Now") && called("time.Time.Add")
+//@ ensures other-deadlines-kept: forallKey(m.paths, func(k string) bool { return m.paths[k] != path ==> m.paths[k].expiresAt == old(m.paths[k].expiresAt) })
+//@ ensures map-unchanged: sameRef(m.paths, old(m.paths)) && forallKey(m.paths, func(k string) bool { return m.paths[k] == old(m.paths[k]) })
 //@ end
 
 //@ func Manager.Start
